@@ -170,6 +170,13 @@ func (group *Group) tickPullModule() {
 	}
 }
 
+var errRelayPullNotEnable = errors.New("relay pull not enable")
+
+// isPullEnabled 静态回源或者api回源，只要有一个开启就算开启
+func (group *Group) isPullEnabled() bool {
+	return group.pullProxy.staticRelayPullEnable || group.pullProxy.apiEnable
+}
+
 func (group *Group) hasPullSession() bool {
 	return group.pullProxy.rtmpSession != nil || group.pullProxy.rtspSession != nil
 }
@@ -306,8 +313,8 @@ func (group *Group) shouldStartPull() (bool, error) {
 		return false, base.ErrDupInStream
 	}
 
-	if !group.pullProxy.staticRelayPullEnable && !group.pullProxy.apiEnable {
-		return false, errors.New("relay pull not enable")
+	if !group.isPullEnabled() {
+		return false, errRelayPullNotEnable
 	}
 
 	// 没人观看自动停的逻辑，是否满足并且需要触发
